@@ -36,7 +36,8 @@
    * D14 (C05): an interrupted snapshot transfer leaves no snapshot (both backends).
    * `sendData`: a reader that belongs to another run id than the request (the leader's
      input switched id between the checks and `NewReader`, which ignores the id) is
-     answered with `ERROR` instead of streaming the other history.
+     answered with `ERROR` instead of streaming the other history; and the loop re-checks the
+     channel's run id after every read (a relabel under an open memory reader).
   Core Lean only.
 -/
 import GunYu.Basic.Bytes
@@ -113,7 +114,10 @@ def renameKey (ds : Dirs β) (old new : Id) : Dirs β :=
     / `MemoryChannel.SetRunId` (relabel). -/
 def setRunId : Backend → Store β → Id → Store β
   | .disk, F, new =>
-    if F.cur = "" || !F.has F.cur then newRunIdDisk F new
+    -- (repaired, /repo 02e084c) "" and "?" name no replication id: nothing happens — a "?" with
+    -- a current id used to rename the current directory to `?`
+    if special new then F
+    else if F.cur = "" || !F.has F.cur then newRunIdDisk F new
     else if new = "" || F.has new then newRunIdDisk F new
     else newRunIdDisk { F with dirs := renameKey F.dirs F.cur new } new
   | .mem, F, new => { cur := new, dirs := F.dirs.map (fun p => (new, p.2)) }
@@ -157,8 +161,6 @@ structure Msg (β : Type) where
   data : List β
 deriving DecidableEq
 
-def ctl (c : Code) : Msg β := ⟨c, "", false, 0, 0, []⟩
-
 /-- split `xs` by the chunk sizes `cs` (zero sizes skipped, the remainder in one piece);
     also returns the unused sizes -/
 def chop : List Nat → List β → List (List β) × List Nat
@@ -180,6 +182,14 @@ def conts : Int → List (List β) → List (Msg β)
 
 /-! ### leader -/
 
+/-- how a handler that does not finish its transfer ends: `clean` — `sendData`'s loop saw the
+    closed wait (end of stream, no message); `fault` — a `FAULT` answer (its reader was closed
+    under it); `idgone` — an `ERROR` answer: the check after a read found the channel labelled
+    with another run id than the one negotiated (the leader's own input relabelled it while the
+    stream reader was open: source fail-over answered `+CONTINUE <new id>`) -/
+inductive HaltEnd | clean | fault | idgone
+deriving DecidableEq, Repr
+
 structure Leader (β : Type) where
   /-- `ServiceReplica`'s gate: role is leader, state is run, a ReplicaLeader exists -/
   serving : Bool
@@ -192,11 +202,18 @@ structure Leader (β : Type) where
   /-- stream bytes the leader's input appends while a stream reader of this session is
       open (after its `META` announcement): a live leader keeps growing -/
   tail : List β
-  /-- the leader is stopped (steps down, its syncer's wait is closed) during the data
-      transfer of this request: `some (k, fault)` = `k` CONTINUE messages got out, then the
-      handler ended — cleanly (`sendData`'s loop saw the closed wait: end of stream, no
-      message) or, `fault`, with a `FAULT` answer (its reader was closed under it) -/
-  halt : Option (Nat × Bool) := none
+  /-- the leader is stopped (steps down, its syncer's wait is closed) or its input relabels
+      the channel during the data transfer of this request: `some (k, e)` = `k` CONTINUE
+      messages got out, then the handler ended as `e` says -/
+  halt : Option (Nat × HaltEnd) := none
+
+def ctl (c : Code) : Msg β := ⟨c, "", false, 0, 0, []⟩
+
+/-- the message a halting handler still sends -/
+def HaltEnd.msgs : HaltEnd → List (Msg β)
+  | .clean => []
+  | .fault => [ctl .fault]
+  | .idgone => [ctl .error]
 
 def Leader.hasSegs (L : Leader β) (d : Data β) : Bool := !d.bytes.isEmpty || L.wopen
 
@@ -235,6 +252,11 @@ def syncReact : Fin → React
   | .err .role => .stopSyncer
   | _ => .nothing
 
+/-- how the stream of a halting handler ends -/
+def HaltEnd.fin : HaltEnd → Fin
+  | .clean => .eof
+  | _ => .err .plain
+
 structure Reply (β : Type) where
   msgs : List (Msg β)
   fin : Fin
@@ -244,7 +266,10 @@ structure Reply (β : Type) where
 /-- `sendData` once the start offset `off` is settled: `NewReader(off)` (AOF reader when a
     segment covers `off`, else the snapshot when `off` is not beyond it, else an error
     answered with `CLEAR`); (repaired) a reader of another run id than the one negotiated
-    is answered with `ERROR`; then the `META` announcement and the `CONTINUE` chunks. -/
+    is answered with `ERROR`; then the `META` announcement and the `CONTINUE` chunks. In the
+    loop (repaired) every read is followed by a check of the channel's run id: a relabelled
+    channel ends the transfer with `ERROR` (`HaltEnd.idgone`) — the memory backend's readers
+    are not closed by `SetRunId` and would go on delivering the new master's bytes. -/
 def Leader.sendData (L : Leader β) (rid : Id) (off : Int) (ch : List Nat) : Reply β :=
   match L.data with
   | none => ⟨[ctl .clear], .err .plain, ch⟩
@@ -255,9 +280,8 @@ def Leader.sendData (L : Leader β) (rid : Id) (off : Int) (ch : List Nat) : Rep
         let r := chop ch (d.bytes.drop (off - (d.base : Int)).toNat ++ L.tail)
         match L.halt with
         | none => ⟨⟨.info, "", true, off, -1, []⟩ :: conts off r.1, .blocks, r.2⟩
-        | some (k, fault) =>
-          ⟨⟨.info, "", true, off, -1, []⟩ :: (conts off (r.1.take k) ++ if fault then [ctl .fault] else []),
-            if fault then .err .plain else .eof, r.2⟩
+        | some (k, e) =>
+          ⟨⟨.info, "", true, off, -1, []⟩ :: (conts off (r.1.take k) ++ e.msgs), e.fin, r.2⟩
     else match d.snap with
       | none => ⟨[ctl .clear], .err .plain, ch⟩
       | some s =>
@@ -267,10 +291,8 @@ def Leader.sendData (L : Leader β) (rid : Id) (off : Int) (ch : List Nat) : Rep
             let r := chop ch s
             match L.halt with
             | none => ⟨⟨.info, "", false, d.base, s.length, []⟩ :: conts off r.1, .eof, r.2⟩
-            | some (k, fault) =>
-              ⟨⟨.info, "", false, d.base, s.length, []⟩ ::
-                  (conts off (r.1.take k) ++ if fault then [ctl .fault] else []),
-                if fault then .err .plain else .eof, r.2⟩
+            | some (k, e) =>
+              ⟨⟨.info, "", false, d.base, s.length, []⟩ :: (conts off (r.1.take k) ++ e.msgs), e.fin, r.2⟩
         else ⟨[ctl .clear], .err .plain, ch⟩
 
 /-- the leader's state as `ServiceReplica`/`Handle` read it during ONE request. The
@@ -319,7 +341,37 @@ deriving DecidableEq, Repr
 
 inductive Cls
   | cut | eof | rpcerr | failure | error | fault | takeover | clear | emptyid | discont | fuel
+  /-- a file write of the follower's own store failed (disk full, I/O error) -/
+  | wfail
 deriving DecidableEq, Repr
+
+/-- what the follower loses of the bytes it RECEIVED in a session. `pipe`: trailing stream
+    bytes that still sat in its pipe when the writer was closed at an abrupt cut. `wfault = some
+    K`: the follower's own store fails — every writer of the session (snapshot writer, stream
+    writer) gets `K` payload bytes onto its file, the write of the next byte fails (ENOSPC / EIO:
+    pkg/store `RdbWriter.write` / `AofRotater.write` return the error, `ingest` ends, the
+    writer's `Wait` reports it and `rdbSync` / `aofSync` return it). Numerals are losses without
+    a write fault. -/
+structure Loss where
+  pipe : Nat
+  wfault : Option Nat := none
+  /-- the commit of a completely written snapshot (`rename x.rdb.tmp x.rdb`) fails -/
+  nocommit : Bool := false
+deriving DecidableEq, Repr
+
+instance (n : Nat) : OfNat Loss n := ⟨⟨n, none, false⟩⟩
+
+@[simp] theorem Loss.zero_pipe : (0 : Loss).pipe = 0 := rfl
+@[simp] theorem Loss.zero_wfault : (0 : Loss).wfault = none := rfl
+@[simp] theorem Loss.zero_nocommit : (0 : Loss).nocommit = false := rfl
+
+/-- the bytes of `p` a writer gets onto its file, and whether a write failed: with a fault
+    after `K` bytes exactly the first `K`, and the fault shows only when there is a byte
+    beyond them -/
+def Loss.written (l : Loss) (p : List β) : List β × Bool :=
+  match l.wfault with
+  | none => (p, false)
+  | some K => (p.take K, decide (K < p.length))
 
 structure Out (β : Type) where
   store : Store β
@@ -405,18 +457,19 @@ def preSync (bk : Backend) (F : Store β) (lid : Id) (loff : Int) : Store β × 
     else (F1, sp)
 
 /-- the receive half of `aofSync`: writer opened at `left` on the cache `F1`, bytes of the
-    delivered messages appended (`lost` trailing bytes dropped with the pipe) -/
-def aofRecv (F1 : Store β) (left : Nat) (ms : List (Msg β)) (fin : Fin) (budget lost : Nat) :
+    delivered messages appended (`lost.pipe` trailing bytes dropped with the pipe; with a write
+    fault only what the writer got onto its file, and the session ends as `wfail`) -/
+def aofRecv (F1 : Store β) (left : Nat) (ms : List (Msg β)) (fin : Fin) (budget : Nat) (lost : Loss) :
     Out β :=
   let q := aofLoop fin budget ms
-  let p := q.2.1.take (q.2.1.length - lost)
-  match aofWrite F1 left p with
+  let w := lost.written (q.2.1.take (q.2.1.length - lost.pipe))
+  match aofWrite F1 left w.1 with
   | none => ⟨F1, [], .aof, .discont⟩
-  | some F2 => ⟨F2, q.1, .aof, q.2.2⟩
+  | some F2 => ⟨F2, q.1, .aof, if w.2 then .wfail else q.2.2⟩
 
 /-- `aofSync` after the `META{aof}` message `m`; `ms` are the messages that follow -/
 def aofSync (bk : Backend) (F : Store β) (x : Id) (m : Msg β) (ms : List (Msg β)) (fin : Fin)
-    (budget lost : Nat) : Out β :=
+    (budget : Nat) (lost : Loss) : Out β :=
   let r := startPoint bk F x
   let sp := r.2
   let F1 := if m.offset > sp.2 && sp.1 ≠ "?" then setRunId bk (delRunId bk r.1 x) x else r.1
@@ -426,7 +479,7 @@ def aofSync (bk : Backend) (F : Store β) (x : Id) (m : Msg β) (ms : List (Msg 
     `aofSync`. `V n` is the leader as the `n`-th request of the session reads it; `fuel`
     bounds the number of `metaSync` rounds (each consumes a message, so `cut + 1` is
     always enough). -/
-def syncLoopV (bk : Backend) (V : Nat → View β) (lost : Nat) (x : Id) :
+def syncLoopV (bk : Backend) (V : Nat → View β) (lost : Loss) (x : Id) :
     Nat → Nat → Nat → List Nat → Store β → Id × Int → Out β
   | 0, _, _, _, F, _ => ⟨F, [], .msync, .fuel⟩
   | fuel + 1, n, budget, ch, F, fsp =>
@@ -446,8 +499,16 @@ def syncLoopV (bk : Backend) (V : Nat → View β) (lost : Nat) (x : Id) :
           let F1 := setRunId bk (delRunId bk F fsp.1) fsp.1
           let q := rdbLoop rp.fin b m.size.toNat ms
           match q.2.2 with
-          | some c => ⟨F1.setCur none, q.1, .rdb, c⟩
+          | some c =>
+            -- the transfer did not complete: no snapshot is kept (D14); with a write fault that
+            -- showed before, `rdbSync` returns the writer's error
+            ⟨F1.setCur none, q.1, .rdb, if (lost.written q.2.1).2 then .wfail else c⟩
           | none =>
+            -- received completely — but a write of the snapshot writer failed: `pumped` stays
+            -- below the announced size, the temporary file is removed, nothing is kept
+            -- … or its commit failed (repaired: the snapshot is announced only after the rename
+            -- succeeded, and `Run` does not go on when nothing is held after a transfer)
+            if (lost.written (q.2.1.take m.size.toNat)).2 || lost.nocommit then ⟨F1.setCur none, q.1, .rdb, .wfail⟩ else
             let F2 := F1.setCur (some ⟨m.offset.toNat, [], some (q.2.1.take m.size.toNat)⟩)
             let r := startPoint bk F2 x
             Out.pre q.1 (syncLoopV bk V lost x fuel (n + 1) (b - q.1.length) rp.rest r.1 r.2)
@@ -455,8 +516,8 @@ def syncLoopV (bk : Backend) (V : Nat → View β) (lost : Nat) (x : Id) :
 /-- one pass of the follower state machine (`Run` from state 1 to its first error) against
     a leader whose state the `n`-th request reads as `V n`, cut after `cut` delivered
     messages. -/
-def sessionV (bk : Backend) (V : Nat → View β) (F : Store β) (ch : List Nat) (cut lost fuel : Nat) :
-    Out β :=
+def sessionV (bk : Backend) (V : Nat → View β) (F : Store β) (ch : List Nat) (cut : Nat) (lost : Loss)
+    (fuel : Nat) : Out β :=
   let rp := (V 0).handle "" 0 ch
   match cut, rp.msgs with
   | 0, _ => ⟨F, [], .hs, .cut⟩
@@ -472,8 +533,8 @@ def sessionV (bk : Backend) (V : Nat → View β) (F : Store β) (ch : List Nat)
         syncLoopV bk V lost m.runId fuel 1 b rp.rest r.1 r.2
 
 /-- the same against a leader that does not change during the session -/
-def session (bk : Backend) (L : Leader β) (F : Store β) (ch : List Nat) (cut lost fuel : Nat) :
-    Out β :=
+def session (bk : Backend) (L : Leader β) (F : Store β) (ch : List Nat) (cut : Nat) (lost : Loss)
+    (fuel : Nat) : Out β :=
   sessionV bk (fun _ => View.const L) F ch cut lost fuel
 
 end GunYu.Replica
